@@ -64,13 +64,24 @@ def unnm(s):
     return int(str(s)[1:])
 
 
+SCALE = 8                 # model integer = float * SCALE: the code sees non-integers (multiples of 1/8)
+VEC0 = 2 ** 27 + 1        # value-vector entries VEC0 + 8 i = 16777216.125 + i: not representable in float32
+BIG = 2 ** 27 + 1         # a float32-sensitive declared value / bound
+
+
 def fz(x):
     """float -> exact integer of the model (None for NaN)"""
     x = float(x)
     if math.isnan(x):
         return None
-    assert x == int(x), x
-    return int(x)
+    y = x * SCALE
+    assert y == int(y), x
+    return int(y)
+
+
+def V(zs):
+    """model integers -> the float64 vector handed to the code"""
+    return np.array([z / SCALE for z in zs], dtype=np.float64)
 
 
 def opt(x):
@@ -190,7 +201,7 @@ class PyWorld:
     def _f(self, v):
         if v is None:
             return None
-        return -0.0 if (self.nz and v == 0) else float(v)
+        return -0.0 if (self.nz and v == 0) else v / SCALE
 
     def _alloc(self, p):
         self.label[id(p)] = len(self.keep)
@@ -253,7 +264,11 @@ class PyWorld:
                     elif e[0] == 'i':
                         req[nm(n)] = self._f(e[1])
                     else:
-                        req[nm(n)] = tuple(self._f(x) for x in e[1:])
+                        # the triple as tuple / list / ndarray (`issequence`), chosen deterministically
+                        t3 = [self._f(x) for x in e[1:]]
+                        kind = (len(self.keep) + len(op[2]) + int(n)) % 3
+                        req[nm(n)] = (tuple(t3) if kind == 0 else
+                                      np.array(t3, dtype=np.float64) if (kind == 2 and None not in t3) else list(t3))
                 req0 = dict(req)
                 try:
                     self.get(op[1]).make_params_floating(req)
@@ -307,7 +322,7 @@ def items(d):
 
 
 def obs_set(w, s):
-    vec = np.array([100.0 + i for i in range(s.n_floating_params)])
+    vec = V([VEC0 + 8 * i for i in range(s.n_floating_params)])
     locs = [w.label.get(id(p), -1) for p in s.params]
     params = [(unnm(p.name), fz(p.initial), bool(p.isfixed), opt(None if p.valmin is None else fz(p.valmin)),
                opt(None if p.valmax is None else fz(p.valmax)), fz(p.value)) for p in s.params]
@@ -339,7 +354,7 @@ def rec_canon(rec):
 def obs_map(w):
     pmm = w.pmm
     g = pmm.global_paramset
-    vec = np.array([100.0 + i for i in range(g.n_floating_params)])
+    vec = V([VEC0 + 8 * i for i in range(g.n_floating_params)])
     vec1 = np.concatenate(([0.0], vec))
     srcs = [int(i) for i in pmm.get_src_model_idxs()]
     ev = srcs[::2]
@@ -696,12 +711,11 @@ def check_set_views(s, where, bad):
         expect(f'get_floating_pidx', _res(lambda: int(s.get_floating_pidx(nm(k)))),
                ('Ok', want_fl[0]) if want_fl else ('Err', 'KeyError'))
         expect('has_param', (s.has_fixed_param(nm(k)), s.has_floating_param(nm(k))), (bool(want_fx), bool(want_fl)))
-    vec = [100.0 + 7 * i for i in range(len(fl))]
+    vec = [100 + 7 * i for i in range(len(fl))]
     want = {e.name: vec[[x.name for x in fl].index(e.name)] if not e.fixed else e.value for e in T}
-    expect('get_params_dict', {unnm(k): float(v) for k, v in s.get_params_dict(np.array(vec)).items()},
-           {k: float(v) for k, v in want.items()})
-    expect('get_floating_params_dict', {unnm(k): float(v) for k, v in s.get_floating_params_dict(np.array(vec)).items()},
-           {e.name: float(vec[i]) for i, e in enumerate(fl)})
+    expect('get_params_dict', {unnm(k): fz(v) for k, v in s.get_params_dict(V(vec)).items()}, want)
+    expect('get_floating_params_dict', {unnm(k): fz(v) for k, v in s.get_floating_params_dict(V(vec)).items()},
+           {e.name: vec[i] for i, e in enumerate(fl)})
     return T, fx, fl, vec
 
 
@@ -729,12 +743,12 @@ def check_map_views(w, bad):
     expect('n_global', (pmm.n_models, pmm.n_global_params, pmm.n_global_fixed_params, pmm.n_global_floating_params,
                         int(pmm.n_sources)),
            (nmod, len(T), len(T) - len(fl), len(fl), sum(w.src)))
-    vec = [100.0 + 7 * i for i in range(len(fl))]
+    vec = [100 + 7 * i for i in range(len(fl))]
     rank = {e.name: i for i, e in enumerate(fl)}
 
     def val(j):
         e = T[j]
-        return float(e.value) if e.fixed else float(vec[rank[e.name]])
+        return e.value if e.fixed else vec[rank[e.name]]
 
     def gpidx(j):
         e = T[j]
@@ -743,7 +757,7 @@ def check_map_views(w, bad):
     for i in range(nmod):
         want = {A[i][j]: val(j) for j in range(len(T)) if A[i][j] is not None}
         for arg in (i, w.models[i], w.models[i].name):
-            got = _res(lambda: {unnm(k): float(v) for k, v in pmm.create_model_params_dict(np.array(vec), arg).items()})
+            got = _res(lambda: {unnm(k): fz(v) for k, v in pmm.create_model_params_dict(V(vec), arg).items()})
             expect('create_model_params_dict', got, ('Ok', want))
         for j in range(len(T)):
             a = pmm.get_model_param_name(i, j)
@@ -766,7 +780,7 @@ def check_map_views(w, bad):
             expect('get_src_model_idxs(sources)', _res(lambda: [int(i) for i in pmm.get_src_model_idxs(sources=arg)]),
                    ('Ok', smidxs))
         try:
-            rec = pmm.create_src_params_recarray(np.array(vec), sources=arg)
+            rec = pmm.create_src_params_recarray(V(vec), sources=arg)
         except Exception as ex:     # noqa: BLE001
             bad.append((where, 'create_src_params_recarray-raises', type(ex).__name__, tag))
             continue
@@ -778,10 +792,10 @@ def check_map_views(w, bad):
         for r, i in enumerate(smidxs):
             for u in uniq:
                 js = [j for j in range(len(T)) if A[i][j] == u]
-                v = float(rec[nm(u)][r])
+                v = fz(rec[nm(u)][r])
                 gi = int(rec[nm(u) + ':gpidx'][r])
                 if not js:
-                    if not math.isnan(v):
+                    if v is not None:
                         bad.append((where, 'recarray-unmapped-not-nan', repr((i, u, v)), 'nan'))
                 else:
                     if not (v == val(js[0]) and gi == gpidx(js[0])):
@@ -792,21 +806,21 @@ def check_map_views(w, bad):
         for r, i in enumerate(smidx_all):
             for u in uniq:
                 js = [j for j in range(len(T)) if A[i][j] == u]
-                v = float(rec[nm(u)][r])
-                want = float('nan') if (not js or not T[js[0]].fixed) else float(T[js[0]].value)
-                if not _eqf(v, want):
+                v = fz(rec[nm(u)][r])
+                want = None if (not js or not T[js[0]].fixed) else T[js[0]].value
+                if v != want:
                     bad.append((where, 'recarray-default-values', repr((i, u, v)), repr(want)))
     except Exception as ex:     # noqa: BLE001
         bad.append((where, 'create_src_params_recarray-raises', type(ex).__name__, 'default'))
     if len(fl) > 0 or True:
-        got = _res(lambda: pmm.create_src_params_recarray(np.array([0.0] + vec)))
+        got = _res(lambda: pmm.create_src_params_recarray(V([0] + vec)))
         if got[0] != 'Err':
             bad.append((where, 'recarray-accepts-wrong-length-vector', '', ''))
-    expect('create_global_params_dict', {unnm(k): float(v) for k, v in pmm.create_global_params_dict(np.array(vec)).items()},
+    expect('create_global_params_dict', {unnm(k): fz(v) for k, v in pmm.create_global_params_dict(V(vec)).items()},
            {e.name: val(j) for j, e in enumerate(T)})
     expect('create_global_floating_params_dict',
-           {unnm(k): float(v) for k, v in pmm.create_global_floating_params_dict(np.array(vec)).items()},
-           {e.name: float(vec[i]) for i, e in enumerate(fl)})
+           {unnm(k): fz(v) for k, v in pmm.create_global_floating_params_dict(V(vec)).items()},
+           {e.name: vec[i] for i, e in enumerate(fl)})
     for k in PROBE:
         expect('get_gflp_idx', _res(lambda: int(pmm.get_gflp_idx(nm(k)))),
                ('Ok', rank[k]) if k in rank else ('Err', 'KeyError'))
@@ -911,7 +925,7 @@ def set_face(w, s):
 def map_face(w):
     pmm = w.pmm
     g = pmm.global_paramset
-    vec = np.array([100.0 + i for i in range(g.n_floating_params)])
+    vec = V([VEC0 + 8 * i for i in range(g.n_floating_params)])
     extra = []
     try:
         rec = pmm.create_src_params_recarray(vec)
@@ -1172,6 +1186,15 @@ def gen_decl(rng, name, ctx=None):
     r = rng.random()
     lo = rng.choice([-4, 0, 2, -1])
     hi = lo + rng.choice([0, 1, 3, 6])
+    if rng.random() < 0.10:
+        # float32-sensitive magnitudes: (2^27+1)/8 = 16777216.125
+        if rng.random() < 0.5:
+            kind, d = 'fixed-big', (name, rng.choice([BIG, -BIG, BIG + 8]), None, None, None)
+        else:
+            kind, d = 'floating-big-bounds', (name, rng.choice([BIG, -BIG, 3]), -BIG, BIG + rng.choice([0, 8]), None)
+        if ctx is not None:
+            ctx.count('decl:' + kind)
+        return d
     if r < 0.40:
         kind, d = 'floating', (name, rng.randint(lo, hi), lo, hi, None)
     elif r < 0.50:
@@ -1197,6 +1220,9 @@ def gen_value_for(rng, e, ctx, tag):
     if rng.random() < 0.15:
         ctx.count(tag + ':zero')
         return 0
+    if rng.random() < 0.05:
+        ctx.count(tag + ':big')
+        return rng.choice([BIG, -BIG])
     if e.lo is None or e.hi is None:
         ctx.count(tag + ':nobounds')
         return rng.randint(-5, 9)
@@ -1393,6 +1419,12 @@ def corpus_cases():
                  ('float', 'G', [(0, ('t', 0, -1, 6))]), ('fix', 'G', [(0, 0)]), ('float', 'G', [(0, ('t', 3, 0, 4))]),
                  ('fix', 'G', [(0, None)]), ('float', 'G', [(0, ('i', 0))]), ('setv', 'G', 0, 0),
                  ('fix', 'G', [(0, 7)]), ('float', 'G', [(0, ('t', 0, 0, None))]), ('union', ['G']), ('copy', 0)]},
+        # non-integer and float32-sensitive values ((2^27+1)/8 = 16777216.125) in every role
+        {'src': [True, True], 'ops': [('map', fx(0, BIG), None, None), ('map', (1, BIG, -BIG, BIG + 8, None), [0], ('s', 4)),
+                                      ('map', (2, 3, 1, 5, None), None, ('s', 5)), ('fix', 'G', [(1, None)]),
+                                      ('float', 'G', [(0, ('t', -BIG, -BIG, BIG)), (1, None)]), ('fix', 'G', [(2, BIG)]),
+                                      ('setv', 'G', 1, BIG + 8), ('setv', 'G', 1, BIG + 9), ('union', ['G']), ('copy', 0),
+                                      ('float', 0, [(2, ('t', BIG + 8, BIG, BIG + 8))]), ('fix', 0, [(0, -BIG)])]},
         # 38184bc (C02, same code): fixed parameter declared ahead of a floating one
         {'src': [True, True], 'ops': [('map', fx(0), None, None), ('map', fl(1), [1], ('s', 4)), ('map', fl(2), [0], ('s', 4)),
                                       ('fix', 'G', [(1, None)]), ('float', 'G', [(0, ('t', 1, 0, 2))])]},
